@@ -24,9 +24,9 @@ CLAIMED = {
     "C02": {
         "category": "exploration",
         "text": "Bounded-exhaustive over labelled inputs: quick <=3 object x <=2 species leaves x all 15 arrangements of <=3 families "
-                "(tuples up to family renaming, inconsistent orders kept) + prescribed root orders; thorough adds <=3x<=3x3 families, "
+                "(tuples up to family renaming where the menu is closed under renaming, restricted menus in full; inconsistent orders kept) + prescribed root orders; thorough adds <=3x<=3x3 families, "
                 "4x<=3x2 families, 4x<=2x subsequences of abc, each with its coherent cost menu, ext_spfs and base_spfs, ALL and ANY. "
-                "quick also 4-leaf chains on one species x subsequences of abc, prescribed roots with a family no leaf carries, hgt = 0, and session "
+                "quick also 4-leaf chains on one species x subsequences of abc, 5-leaf chains on one species x {ac, bc, abc, b} with dup = 0, prescribed roots with a family no leaf carries, hgt = 0, and session "
                 "slices (one input object updated in place, with and without a prescribed root). Input presentation varies with the input: leaf "
                 "dictionaries in three orders, syntenies typed as lists / tuples, prefix-related multi-character family names, same-label ancestors. "
                 "Oracle: Bellman over (species, subsequence) for every compatible root order; base: LCA mapping fixed.",
@@ -88,7 +88,7 @@ CLAIMED = {
                 "reconcile_lca's mapping = model LCA mapping, valid, and cheapest among ALL transfer-free valid mappings (enumerated by the model) "
                 "for all 36 (dup, loss) in {0..5}^2, unique when loss > 0; implementation cost = model cost. Operation histories: one species "
                 "tree and one LowestCommonAncestor object (named / unnamed ancestors) shared by every object tree of the bound, the leaf-mapping "
-                "dict updated in place through every assignment, every ordered pair of assignments on small inputs.",
+                "dict updated in place through every assignment, every ordered pair of assignments on small inputs; the caller's own cost dict edited after the input was built (a cost sweep).",
         "design_ref": "6 (C07)",
         "note": "Trusted: refmodel/dtl.py. The comparison with thl at hgt=inf is C10's.",
         "technique": TECH_E2,
@@ -113,7 +113,7 @@ CLAIMED = {
                 "menu and thl / ext_spfs / base_spfs / superdtl / base_uspfs, the ALL result is compared with the result on every transformation of a "
                 "finite menu (single-node child swaps, mirror, 3 node renamings, 2 family renamings, outgroup on either side, repetition on the same "
                 "object and on a fresh one, scaling x2/x3, each unit cost +1); plus a fixed corpus solved in fresh interpreters under "
-                "PYTHONHASHSEED 0..3 with byte-identical canonical output. Further transformations: leaf dictionaries written in another order, "
+                "PYTHONHASHSEED 0..3 with byte-identical canonical output. Further quick slices: child-order transformations on every 4-leaf labelled object over a species cherry (2 families); the input solved after a pass through its dictionary form under vectors with a zero or infinite unit cost. Further transformations: leaf dictionaries written in another order, "
                 "children swapped in place on the live trees with a new LCA structure, prices doubled in place on the same input object.",
         "design_ref": "6 (C09), 7",
         "note": "No oracle needed (metamorphic relations). Object-address-dependent iteration order is not controllable; results compared as sets.",
@@ -134,7 +134,7 @@ CLAIMED = {
         "category": "exploration",
         "text": "Bounded-exhaustive round trip X.from_dict(json.loads(json.dumps(x.to_dict()))) for inputs and outputs: every output of all seven "
                 "algorithms on <=3x<=3 inputs, every valid mapping of the P-slice (quick <=3x<=3, thorough <=4x<=3) and every valid unordered / selected "
-                "ordered labelling on <=2 families, crossed with 5 naming schemes (digits, underscores, O#/S# look-alikes, names differing only by case), a colour menu on both trees "
+                "ordered labelling on <=2 families, crossed with 6 naming schemes (digits, underscores, O#/S# look-alikes, names differing only by case, leaf names whose <species>_ prefix names another species than the assigned one), a colour menu on both trees "
                 "(all subsets of <=3 object / <=2 species nodes on small trees, root and nested colours) and a float-infinite transfer cost; trees, "
                 "mappings, syntenies, flag, events, cost compared, and to_dict() of the copy reproduced verbatim on the listed fields; every object is "
                 "serialised a second time after an in-place edit of its trees and costs; multifurcating inputs (<= 4 / 5 leaves) for child order; "
@@ -167,7 +167,7 @@ CLAIMED = {
                 "it maps to with the model's event kind, per-species loss counts equal to the model's, transferred child on the right; the TikZ text "
                 "holds the same numbers of event nodes, loss markers and transfer arrows, each arrow ending at the anchor of the transferred child; "
                 "the stub asserts one measured box per branch. Operation histories: every ordered pair of distinct valid mappings of one input "
-                "(<=3x<=3, thorough <=4x<=3) drawn one after the other on the SAME tree objects; nameless object ancestors; 5-leaf chains on two "
+                "(<=3x<=3, thorough <=4x<=3) drawn one after the other on the SAME tree objects, once with both output objects alive and once with the first released before the second is created (address reuse counted); nameless object ancestors; 5-leaf chains on two "
                 "species (four events of one kind).",
         "design_ref": "6 (C13)",
         "note": "Trusted: refmodel/picture.py loss-location rule; stub measurer instead of TeX; the text is scanned, not typeset.",
